@@ -81,7 +81,9 @@ BUILTIN_EXC = {
     'AttributeError': 'Exception', 'RuntimeError': 'Exception', 'NotImplementedError': 'RuntimeError',
     'StopIteration': 'Exception', 'ZeroDivisionError': 'ArithmeticError', 'ArithmeticError': 'Exception',
     'OverflowError': 'ArithmeticError', 'UnicodeError': 'ValueError', 'CancelledError': 'BaseException',
-    'TimeoutError': 'Exception', 'OSError': 'Exception',
+    'TimeoutError': 'Exception', 'OSError': 'Exception', 'EOFError': 'Exception', 'ImportError': 'Exception', 'ModuleNotFoundError': 'ImportError',
+    'MemoryError': 'Exception', 'RecursionError': 'RuntimeError', 'NameError': 'Exception', 'UnicodeDecodeError': 'UnicodeError', 'UnicodeEncodeError': 'UnicodeError',
+    'FileNotFoundError': 'OSError', 'PermissionError': 'OSError', 'ConnectionError': 'OSError', 'BufferError': 'Exception', 'StopAsyncIteration': 'Exception',
 }
 
 # ------------------------------------------------------------------ contracts
@@ -754,6 +756,35 @@ class Exec:
 
     def e_DictComp(self, n): return self.kwdict_of(n)
 
+    def map_comprehension(self, node, g):
+        """{k: f(k) for k in m}  /  {k: f(k) for k in itertools.chain(m1, m2, ...)}  over finite maps, key expression = the loop variable, f pure:
+        the result is the finite map whose domain is the union of the domains and whose value at k is f(k)"""
+        if not (isinstance(g.target, ast.Name) and isinstance(node.key, ast.Name) and node.key.id == g.target.id): return None
+        srcs = [g.iter]
+        if isinstance(g.iter, ast.Call) and ast.unparse(g.iter.func) in ('itertools.chain', 'chain') and not g.iter.keywords: srcs = list(g.iter.args)
+        maps = []
+        for sn_ in srcs:
+            try: mv = self.val(self.eval(sn_))
+            except Unsupported: return None
+            if not isinstance(mv.ty, TMap): return None
+            maps.append(mv)
+        kty = T._join_all([m_.ty.k for m_ in maps])
+        dom = maps[0].t[0]
+        for m_ in maps[1:]: dom = z3.SetUnion(dom, m_.t[0])
+        kc = fresh('ck', sort_of(kty))
+        saved = dict(self.st.env)
+        self.nofork += 1; self.binders.append(kc)
+        try:
+            self.st.env[g.target.id] = unpack(kc, kty)
+            try: val = self.val(self.eval(node.value))
+            except NeedFork: raise Unsupported('dict comprehension whose value expression needs a fork')
+        finally:
+            self.nofork -= 1; self.binders.pop(); self.st.env = saved
+        arr = z3.Lambda([kc], pack(val))
+        card = T.card_fn(dom)
+        for f_ in T.set_facts(dom, card, TSet(kty)): self.assume(f_)
+        return V(TMap(kty, val.ty), (dom, arr, card))
+
     def e_IfExp(self, n):
         c = z3.simplify(self.truth_of(self.val(self.eval(n.test))))
         if z3.is_true(c): return self.eval(n.body)
@@ -862,6 +893,13 @@ class Exec:
             ia = ta.inner if isinstance(ta, TOpt) else ta; ib = tb.inner if isinstance(tb, TOpt) else tb
             if isinstance(ia, (TEnum, TRef, TAny)) or ia is TBool or isinstance(ib, (TEnum, TRef, TAny)) or ib is TBool:
                 return veq(a, b)
+        if isinstance(ta, (TMap, TSet, TSeq, TRec, TTuple)) and isinstance(tb, (TMap, TSet, TSeq, TRec, TTuple)) and not self.spec:
+            # identity of immutable values (persistent maps, tuples ...) is not modelled: `a is b` is an unknown boolean that implies a == b
+            self.vf.note_assumption('`is` between immutable values (maps / tuples) is an arbitrary boolean that implies equality')
+            b_ = fresh('same', z3.BoolSort())
+            try: self.assume(z3.Implies(b_, veq(a, b)))
+            except Unsupported: pass
+            return b_
         raise Unsupported('`is` on values of type %r / %r (identity of immutable values is not modelled)' % (ta, tb))
 
     def contains(self, c, x):
@@ -1539,9 +1577,24 @@ class Exec:
                     fty = self.w.ty(self.w.classes[ty.cls][nm])
                     if pos: v_ = pos.pop(0)
                     elif nm in kwargs: v_ = kwargs[nm]
-                    elif st.value is not None: v_ = self.eval(st.value)
+                    elif st.value is not None and isinstance(st.value, ast.Call) and ast.unparse(st.value.func) in ('dataclasses.field', 'field'):
+                        kws = {k.arg: k.value for k in st.value.keywords}
+                        if 'default' in kws: v_ = self.eval(kws['default'])
+                        elif 'default_factory' in kws and isinstance(kws['default_factory'], ast.Name) and kws['default_factory'].id in ('list', 'dict', 'set', 'tuple', 'frozenset'):
+                            v_ = V(TTuple([]), [])
+                        elif 'default_factory' in kws: v_ = self.call(self.eval(kws['default_factory']), [], {}, None)
+                        else: raise Unsupported('dataclass %s: field %s without default' % (cref.name, nm))
+                    elif st.value is not None:
+                        try: v_ = self.eval(st.value)
+                        except Unsupported:
+                            if isinstance(fty, TRef) and fty.universal: v_ = V(fty, fresh('pyobj', sort_of(fty)))      # a default outside the subset, stored where any object is accepted: opaque
+                            else: raise
                     else: raise Unsupported('dataclass %s: no value for field %s' % (cref.name, nm))
-                    self.heap_write(r, nm, self.co(v_, fty))
+                    try: v2_ = self.co(v_, fty)
+                    except Unsupported:
+                        if isinstance(fty, TRef) and fty.universal and isinstance(v_, V): v2_ = V(fty, fresh('pyobj', sort_of(fty)))     # a structured value stored where any object is accepted: opaque
+                        else: raise
+                    self.heap_write(r, nm, v2_)
             return r
         raise Unsupported('constructor of undeclared class %s' % cref.name)
 
@@ -1945,6 +1998,9 @@ class Exec:
                 facts = []
                 for nme, tystr in ab.get('assigns', {}).items(): self.st.env[nme] = havoc(self.w.ty(tystr), nme, facts)
                 for f_ in facts: self.assume(f_)
+                outcomes_ = ['normal'] + list(ab.get('raises', []))      # the block may also end in one of these exceptions (state havoc'd as above, nothing else known)
+                k_ = self.choose(len(outcomes_)) if len(outcomes_) > 1 else 0
+                if k_ > 0: self.raise_exc(outcomes_[k_])
                 saved_old_ = self.old; self.old = pre_
                 try:
                     for e_ in ab.get('ensures', []): self.assume(self.eval_spec(e_))
@@ -2017,13 +2073,19 @@ class Exec:
         if len(node.generators) != 1 or node.generators[0].ifs or node.generators[0].is_async: raise Unsupported('dict comprehension shape')
         g = node.generators[0]
         src = None
+        if isinstance(g.iter, ast.Call) and ast.unparse(g.iter.func) in ('itertools.chain', 'chain'):
+            r_ = self.map_comprehension(node, g)
+            if r_ is not None: return r_
         if isinstance(g.iter, ast.Call) and isinstance(g.iter.func, ast.Attribute) and g.iter.func.attr == 'items' and not g.iter.args:
             b = self.eval(g.iter.func.value)
             if isinstance(b, KwDict): src = [V(TTuple([TStr, self.val(x).ty]), [vstr(k), self.val(x)]) for k, x in list(b.items.items())]
         if src is None:
             it = self.val(self.eval(g.iter))
             if isinstance(it.ty, TTuple): src = list(it.t)
-        if src is None: raise Unsupported('dict comprehension over something that is not a keyword bag / constant tuple')
+        if src is None:
+            r_ = self.map_comprehension(node, g)
+            if r_ is not None: return r_
+            raise Unsupported('dict comprehension over something that is not a keyword bag / constant tuple / finite map(s)')
         out = {}
         saved = dict(self.st.env)
         for x in src:
@@ -2146,6 +2208,8 @@ class Exec:
             names = [h.type] if not isinstance(h.type, ast.Tuple) else h.type.elts
             for nm in names:
                 cls = self.eval(nm)
+                if isinstance(cls, BuiltinRef) and (cls.name.endswith('Error') or cls.name.endswith('Exception')):
+                    cls = ExcClass(cls.name.split('.')[-1])      # an exception class of a library module: known by name only (a direct subclass of Exception)
                 if not isinstance(cls, ExcClass): raise Unsupported('except clause class')
                 if self.exc_isinstance(exc.cls, cls.name): return h
         return None
